@@ -35,7 +35,7 @@ CONSTANTS Ls,          \* listeners (channels), e.g. {1,2,3}
           Rids,        \* e.g. {1}
           ExtCfgs,     \* set of <<ridOn, midOn>> pairs: which header-extension ids are negotiated
           MaxLen,      \* bound on the number of actions in a behaviour
-          Extras,      \* optional action groups: subset of {"full", "ext"}
+          Extras,      \* optional action groups: subset of {"full", "ext", "bridge"}
           Deviations
 
 VARIABLES bySsrc,      \* [Ssrcs -> Ls \cup {0}]
@@ -46,15 +46,16 @@ VARIABLES bySsrc,      \* [Ssrcs -> Ls \cup {0}]
           full,        \* listeners whose channel is at capacity (the receiver is not reading)
           cfg,         \* [rid |-> BOOLEAN, mid |-> BOOLEAN]: which extension ids are set now
           cfg0,        \* the configuration the transport started with (never changes)
+          bridged,     \* a rewrite bridge is installed on this transport: inbound RTP bypasses the demux
           reg,         \* ghost: listeners registered since the last clear_listeners / removal
           hist,        \* actions so far
           last         \* what the last step did (for the rules)
 
-vars == <<bySsrc, byRid, byMid, route, closed, full, cfg, cfg0, reg, hist, last>>
-view == <<bySsrc, byRid, byMid, route, closed, full, cfg, cfg0, reg>>
+vars == <<bySsrc, byRid, byMid, route, closed, full, cfg, cfg0, bridged, reg, hist, last>>
+view == <<bySsrc, byRid, byMid, route, closed, full, cfg, cfg0, bridged, reg>>
 
 NoRoute == [on |-> FALSE, pts |-> {}, prov |-> FALSE]
-NoLast  == [kind |-> "ctl", by |-> "", sel |-> 0, delivered |-> {}, allowed |-> {{}}, failed |-> 0,
+NoLast  == [kind |-> "ctl", by |-> "", sel |-> 0, delivered |-> {}, allowed |-> {{}}, failed |-> 0, fwd |-> FALSE,
             ridmid |-> {}, holders |-> {}, provs |-> {}, identified |-> FALSE, unreg |-> FALSE]
 
 Init ==
@@ -66,6 +67,7 @@ Init ==
   /\ full = {}
   /\ \E c \in ExtCfgs : cfg = [rid |-> c[1], mid |-> c[2]]
   /\ cfg0 = cfg
+  /\ bridged = FALSE
   /\ reg = {}
   /\ hist = <<>>
   /\ last = NoLast
@@ -95,7 +97,7 @@ TheOne(S)     == IF Cardinality(S) = 1 THEN CHOOSE l \in S : TRUE ELSE 0
 
 Ctl(a) == /\ last' = NoLast
           /\ Log(a)
-          /\ UNCHANGED cfg0
+          /\ UNCHANGED <<cfg0, bridged>>
 
 RegSsrc(l, s) ==
   /\ bySsrc' = [DropClosed(bySsrc) EXCEPT ![s] = l]
@@ -171,6 +173,14 @@ SetExt(k, on) ==    \* set_rid_extension_id / set_sdes_mid_extension_id (Some(id
   /\ Ctl([op |-> "ext", k |-> k, on |-> on])
   /\ UNCHANGED <<bySsrc, byRid, byMid, route, closed, full, reg>>
 
+SetBridge(on) ==    \* bridge_rewrite_rules_to(..) / clear_bridge_rewrite(): the registry is not touched
+  /\ "bridge" \in Extras
+  /\ bridged # on
+  /\ bridged' = on
+  /\ last' = NoLast
+  /\ Log([op |-> "bridge", on |-> on])
+  /\ UNCHANGED <<bySsrc, byRid, byMid, route, closed, full, cfg, cfg0, reg>>
+
 ---------------------------------------------------------------------------
 (* One inbound RTP packet (clear mode, no bridge)                           *)
 
@@ -216,7 +226,8 @@ AllowedOutcomes(s, pt, rid, mid) ==
 \* The whole effect of one packet as a value (so that it can also be evaluated in the next state, for
 \* the probe edges of MC_Demux).
 PktEffect(s, pt, rid, mid) ==
-  LET sel  == Select(s, pt, rid, mid)
+  LET sel  == IF bridged THEN [l |-> 0, by |-> "bridge", bind |-> FALSE]   \* taken by the bridge fast path
+              ELSE Select(s, pt, rid, mid)
       x    == sel.l
       bs1  == IF sel.bind THEN [DropClosed(bySsrc) EXCEPT ![s] = x] ELSE bySsrc
       fail == x # 0 /\ x \in closed
@@ -227,7 +238,11 @@ PktEffect(s, pt, rid, mid) ==
        route  |-> IF fail THEN [route EXCEPT ![x] = NoRoute] ELSE route,
        reg    |-> IF fail THEN reg \ {x} ELSE reg,
        last   |-> [kind |-> "pkt", by |-> sel.by, sel |-> x, delivered |-> Out(x),
-                   allowed |-> AllowedOutcomes(s, pt, rid, mid),
+                   \* with a bridge the packet is forwarded instead (EXT: no listener gets it); the statement
+                   \* itself only forbids a receiver the chain does not identify
+                   allowed |-> IF bridged THEN AllowedOutcomes(s, pt, rid, mid) \cup {{}}
+                               ELSE AllowedOutcomes(s, pt, rid, mid),
+                   fwd |-> bridged,
                    failed |-> IF fail THEN x ELSE 0,
                    ridmid |-> {RidSel(rid), MidSel(mid)} \ {0},
                    holders |-> PtHolders(pt), provs |-> Provs,
@@ -243,7 +258,7 @@ Packet(s, pt, rid, mid) ==
   /\ reg'    = e.reg
   /\ last'   = e.last
   /\ Log([op |-> "pkt", s |-> s, pt |-> pt, rid |-> rid, mid |-> mid])
-  /\ UNCHANGED <<closed, full, cfg, cfg0>>
+  /\ UNCHANGED <<closed, full, cfg, cfg0, bridged>>
 
 Register == \E l \in Ls :
               \/ \E s \in Ssrcs : RegSsrc(l, s)
@@ -258,7 +273,8 @@ AnyPacket == \E s \in Ssrcs, pt \in Pts, rid \in Rids \cup {0}, mid \in Mids \cu
 
 Next == Len(hist) < MaxLen /\ ( \/ Register \/ (\E l \in Ls : Close(l)) \/ Clear \/ AnyPacket
                                \/ (\E l \in Ls : Fill(l) \/ Drain(l))
-                               \/ (\E k \in {"rid", "mid"}, on \in BOOLEAN : SetExt(k, on)) )
+                               \/ (\E k \in {"rid", "mid"}, on \in BOOLEAN : SetExt(k, on))
+                               \/ (\E on \in BOOLEAN : SetBridge(on)) )
 
 Spec == Init /\ [][Next]_vars
 
@@ -298,7 +314,7 @@ NoCrossSection ==
 \* SSRC bindings are learnt only from RID / MID / unique-PT identification (or registered
 \* explicitly); by-SSRC and provisional deliveries never create or re-point one.
 BindingRule ==
-  [][ (last'.kind = "pkt" /\ last'.by \in {"ssrc", "prov", "none"} /\ last'.failed = 0)
+  [][ (last'.kind = "pkt" /\ last'.by \in {"ssrc", "prov", "none", "bridge"} /\ last'.failed = 0)
         => bySsrc' = bySsrc ]_vars
 BindingLearnt ==
   [][ (last'.kind = "pkt" /\ last'.by \in {"rid", "mid", "pt"} /\ last'.failed = 0)
